@@ -226,9 +226,40 @@ def statistics(ctx, rng, nops=8):
             viol(ctx, "stat-priorities", f"class {k} frequency {stat['class_freq'][k]:.3f} vs probability {pr}", {"params": params})
 
 
+def two_generators(ctx, rng):
+    """two generators alive at once (a trace being written while a simulation runs, two simulations side by side): each one's ids stay fresh, and
+    each delivers exactly what it delivers when it is alone"""
+    from eudoxia.workload import WorkloadGenerator
+    for _ in range(4):
+        params = make_params(rng)
+        params.update({"waiting_seconds_mean": rng.choice([0.05, 0.5]), "ticks_per_second": 10})
+        p2 = dict(params, random_seed=params["random_seed"] + 1, num_pipelines=rng.randint(1, 4))
+        n = 60
+        alone = [[p.pipeline_id for p in ps] for ps in run_generator(params, n, record=False)[2]]
+        g1 = WorkloadGenerator(**params)
+        out = [g1.run_one_tick() for _ in range(n // 3)]
+        g2 = WorkloadGenerator(**p2)
+        for t in range(n // 3, n):
+            if t % 2:
+                g2.run_one_tick()
+            out.append(g1.run_one_tick())
+            if not t % 2:
+                g2.run_one_tick()
+        ids = [p.pipeline_id for ps in out for p in ps]
+        ctx.coverage["evaluations"] += 1
+        ctx.sit("two_generators_side_by_side")
+        if len(set(ids)) != len(ids):
+            dup = next(x for x in ids if ids.count(x) > 1)
+            return viol(ctx, "fresh-ids", f"with a second generator alive, a generator delivered the pipeline id {dup} twice", {"params": params, "second": p2})
+        if [[p.pipeline_id for p in ps] for ps in out] != alone:
+            return viol(ctx, "fresh-ids", "a generator delivers other pipelines (ids or ticks) when a second generator is alive than when it is alone",
+                        {"params": params, "second": p2})
+
+
 def run(ctx):
     rng = random.Random(ctx.seed)
     tables = proto_table()
+    two_generators(ctx, random.Random(ctx.seed + 17))
     drv = Driver()
     try:
         for _ in range(60 if ctx.quick() else 600):
